@@ -14,7 +14,7 @@ def gen_content(rng, size_class=None):
         WORDS = [bytes(97 + w.below(26) for _ in range(2 + w.below(8))) for _ in range(400)]
     if size_class is None:
         r = rng.below(100)
-        size_class = 'tiny' if r < 25 else 'small' if r < 65 else 'medium' if r < 92 else 'large'
+        size_class = 'tiny' if r < 25 else 'small' if r < 65 else 'medium' if r < 96 else 'large'
     if size_class == 'tiny':
         n = rng.choice([0, 1, 2, 3, 5, 8, 16, 31, 32, 33, 64, 100, 200])
     elif size_class == 'small':
